@@ -432,7 +432,7 @@ class Scan:
                 continue
             # ordinary call
             m = re.compile(r"(?:(?P<recv>\w+(?:\(\))?)\s*(?:\.|::)\s*)?(?P<name>[a-z_]\w*)\s*(?:::<[^>]*>)?\s*\(").match(body, i)
-            if m and (i == 0 or not (body[i - 1].isalnum() or body[i - 1] in "_.!")):
+            if m and (i == 0 or not (body[i - 1].isalnum() or body[i - 1] in "_!")):
                 recv, name = m.group("recv") or "", m.group("name")
                 # receiver chains like self.get_node().x( : look at the text just before
                 if not recv:
